@@ -62,20 +62,40 @@ color_command!(TextColorCommand, _config, _matches, color, {
     color.text_color()
 });
 
-color_command!(MixCommand, config, matches, color, {
-    let mut print_spectrum = PrintSpectrum::Yes;
+/// The base color of `mix` is given once on the command line: it is read once (from the
+/// argument, from STDIN for '-', or from the color picker) and then mixed with every color.
+#[derive(Default)]
+pub struct MixCommand {
+    base: std::cell::RefCell<Option<Color>>,
+}
 
-    let base = ColorArgIterator::from_color_arg(
-        config,
-        matches.value_of("base").expect("required argument"),
-        &mut print_spectrum,
-    )?;
-    let fraction = Fraction::from(1.0 - number_arg(matches, "fraction")?);
+impl ColorCommand for MixCommand {
+    fn run(
+        &self,
+        out: &mut Output,
+        matches: &ArgMatches,
+        config: &Config,
+        color: &Color,
+    ) -> Result<()> {
+        if self.base.borrow().is_none() {
+            let mut print_spectrum = PrintSpectrum::Yes;
 
-    let mix = get_mixing_function(matches.value_of("colorspace").expect("required argument"));
+            let base = ColorArgIterator::from_color_arg(
+                config,
+                matches.value_of("base").expect("required argument"),
+                &mut print_spectrum,
+            )?;
+            *self.base.borrow_mut() = Some(base);
+        }
+        let base = self.base.borrow().clone().expect("the base color has been read");
 
-    mix(&base, color, fraction)
-});
+        let fraction = Fraction::from(1.0 - number_arg(matches, "fraction")?);
+
+        let mix = get_mixing_function(matches.value_of("colorspace").expect("required argument"));
+
+        out.show_color(config, &mix(&base, color, fraction))
+    }
+}
 
 color_command!(ColorblindCommand, config, matches, color, {
     // The type of colorblindness selected (protanopia, deuteranopia, tritanopia)
